@@ -64,13 +64,13 @@ func propC05(r *Run) {
 			}
 			return p.cbOK, p.cbMsg, p.cbErr
 		}
+		sched := simrt.NewSched()
+		simrt.S = sched
+		defer func() { simrt.S = nil }()
 		srv, err := NewServer("/run/whawty/auth.sock", cb)
 		if err != nil {
 			r.Fail("harness/listen", "%v", err)
 		}
-		sched := simrt.NewSched()
-		simrt.S = sched
-		defer func() { simrt.S = nil }()
 		go func() {
 			sched.Register("accept-loop") // goroutines it starts from function literals become scheduling points
 			srv.Run()                     //nolint
@@ -135,6 +135,9 @@ func propC05(r *Run) {
 			}
 			if len(p.calls) == 1 && p.cbDelay > 0 && time.Since(p.cbStart) < p.cbDelay {
 				return // the callback is still working on this connection's request
+			}
+			if !final && len(sched.Runnable()) > 0 {
+				return // a handler goroutine has not been given its turn yet: nothing can be demanded of it
 			}
 			if (complete || ended) && !closed {
 				r.Fail("reply/not-closed", "conn%d: stream complete=%v ended=%v but the server has not closed the connection (output %d bytes)", i, complete, ended, len(out))
